@@ -71,7 +71,7 @@ def run_one(hbin, driver, argv, perturb, timeout_s):
     env = dict(os.environ, VERIF_PERTURB=str(perturb))
     try:
         h = subprocess.run([hbin] + [str(a) for a in argv], capture_output=True, text=True, timeout=timeout_s, env=env)
-        raw, rc, err = h.stdout, h.returncode, h.stderr[-600:]
+        raw, rc, err = h.stdout, h.returncode, ' '.join(l for l in h.stderr.split('\n') if l.startswith('monitor ') or 'terminate' in l or 'what()' in l)[-900:]
     except subprocess.TimeoutExpired as e:
         raw = (e.stdout or b'').decode(errors='replace') if isinstance(e.stdout, bytes) else (e.stdout or '')
         rc, err = -999, 'wall-clock limit of the check reached (not a verdict)'
@@ -80,7 +80,27 @@ def run_one(hbin, driver, argv, perturb, timeout_s):
         raw = (raw if raw.startswith('case ') else 'case ctx incomplete\n' + raw) + f'\nend {status}\nendcase\n'
     d = subprocess.run([driver, 'ctx'], input=raw, capture_output=True, text=True)
     verdict = d.stdout.strip().split('\n')[0] if d.stdout.strip() else 'case ctx reject 0 [no-driver-output]'
+    cm = config_monitor(argv, raw)
+    if cm:
+        verdict = verdict.replace('monitors ok', 'monitors FAIL: ' + cm) if 'monitors ok' in verdict else verdict + ' | ' + cm
     return {'argv': argv, 'perturb': perturb, 'raw': raw, 'verdict': verdict, 'rc': rc, 'err': err, 'wall': time.time() - t0}
+
+
+def config_monitor(argv, raw):
+    """the sizes given on the command line must be the sizes the runtime reports as configured (the
+    harness then compares every task's actual stack size with these)"""
+    m = re.search(r' conf=(\d+),(\d+),(\d+),(\d+) guard=(\d)', raw)
+    if not m:
+        return None
+    conf = dict(zip(('small', 'medium', 'large', 'huge'), (int(m.group(i)) for i in range(1, 5))))
+    for a in argv:
+        mm = re.fullmatch(r'--pika:ini=pika\.stacks\.(small|medium|large|huge)_size=(0x[0-9a-fA-F]+|\d+)', str(a))
+        if mm and conf[mm.group(1)] != int(mm.group(2), 0):
+            return f'configured {mm.group(1)} stack size {int(mm.group(2), 0)} is not honoured: runtime reports {conf[mm.group(1)]}'
+        mm = re.fullmatch(r'--pika:ini=pika\.stacks\.use_guard_pages=(\d)', str(a))
+        if mm and int(m.group(5)) != int(mm.group(1)):
+            return f'use_guard_pages={mm.group(1)} is not honoured: runtime reports {m.group(5)}'
+    return None
 
 
 def classify(r):
@@ -138,7 +158,7 @@ def main():
                 if not okc:
                     problems.append(f'leanchecker {m}: {out}')
     elif not ok_build:
-        problems.append('lake build failed: ' + ' / '.join(l for l in build_log.split('\n') if 'error' in l)[:600])
+        problems.append('lake build failed: ' + ' / '.join(l for l in build_log.split('\n') if 'error' in l and '.lean' in l)[:900])
         with Lock('lake'):
             sh('lake build driver 2>&1', cwd=LEAN)      # the driver does not depend on the theorems
     obligations = audit['obligations'] if audit else 0
@@ -216,7 +236,7 @@ def main():
     if mon:
         for r in mon:
             msg = r['verdict'].split('monitors FAIL:')[-1].strip() if 'monitors FAIL' in r['verdict'] else 'crash: ' + r['raw'][-200:].replace('\n', ' ') + ' ' + r['err'][-200:].replace('\n', ' ')
-            sig = re.sub(r'\d+', 'N', msg)[:160]
+            sig = re.sub(r'\d+', 'N', msg.split(' | ')[0])[:160]
             if sig in reported:
                 continue
             reported.add(sig)
